@@ -93,6 +93,7 @@ Section LitCapture.
   Proof.
     intros Hlit Hf Hp v.
     unfold Capture.parse_callable, Capture.rewrite_captured in Hp. cbn [Capture.rw Capture.same] in Hp.
+    rewrite (fragc_no_assigned b Hf) in Hp. cbn [app] in Hp.     (* F42: the fragment has no assignment expressions *)
     destruct (proj1 (rw_ok_all ce Hlit) b Hf [[p]]) as (r & Hr & _). rewrite Hr in Hp.
     cbn [Capture.sbind fst Capture.resolve_called Capture.res] in Hp. inversion Hp; subst b0. clear Hp.
     rewrite captured_vals.
